@@ -11,6 +11,8 @@ for pid in ALL:
         if pid not in ENABLED:
             raise ModuleNotFoundError(pid)
         m = importlib.import_module('props.' + pid)
+        import check as _check
+        m = _check.merge_extensions(m)
     except ModuleNotFoundError:
         na.append({'property_id': pid, 'reason': 'check not built yet in this round (planned in DESIGN.md §7.%s); not claimed' % pid})
         continue
